@@ -228,11 +228,15 @@ impl<'a> Judge<'a> {
                 self.rep.distinct(&format!("{}|{}|{:?}|{}", embodiment, capc, term, sig));
             } else {
                 let cs: Vec<char> = sig.chars().collect();
+                let mut wins: Vec<String> = Vec::new();
                 for w in cs.windows(3) {
                     if w.iter().any(|c| !matches!(c, 'b' | 'f' | 'd')) {
-                        self.rep.distinct(&format!("{}|{}|{:?}|{}{}{}", embodiment, capc, term, w[0], w[1], w[2]));
+                        let s3 = format!("{}|{}|{:?}|{}{}{}", embodiment, capc, term, w[0], w[1], w[2]);
+                        self.rep.fine("outcome_windows_of_3_calls", &s3);
+                        wins.push(s3);
                     }
                 }
+                self.rep.distinct_set(&format!("{}|{}|{:?}", embodiment, capc, term), &mut wins);
             }
         } else {
             self.rep.trivial();
